@@ -55,6 +55,25 @@ Fixpoint bracketed (s : list op) (d : nat) : option nat :=
 Definition well_bracketed (s : list op) : bool :=
   match bracketed s O with Some O => true | _ => false end.
 
+(* the discipline of the printer: at least k payload bytes are handed to lyb_write() directly before every
+   nested lyb_write_start_siblings() (lyb_print_node() writes the node type and the schema hash, k = 2).
+   d = open siblings, prev = bytes written since the last start/stop *)
+Fixpoint disciplined (k : nat) (s : list op) (d prev : nat) : bool :=
+  match s with
+  | [] => true
+  | Start :: s' => (Nat.eqb d 0 || Nat.leb k prev) && disciplined k s' (S d) 0
+  | Write bs :: s' => disciplined k s' d (prev + length bs)
+  | Stop :: s' => disciplined k s' (pred d) 0
+  end.
+(* deepest nesting reached *)
+Fixpoint max_depth (s : list op) (d : nat) : nat :=
+  match s with
+  | [] => d
+  | Start :: s' => Nat.max (S d) (max_depth s' (S d))
+  | Write _ :: s' => max_depth s' d
+  | Stop :: s' => Nat.max d (max_depth s' (pred d))
+  end.
+
 (* htole64(num) + memcpy of the k low bytes, and the way back (num = 0; memcpy; le64toh) *)
 Fixpoint le_bytes (k : nat) (n : N) : bytes :=
   match k with O => [] | S k' => n mod 256 :: le_bytes k' (n / 256) end.
